@@ -123,7 +123,9 @@ fn api_record(k: usize, vt: &Vt, out: &mut impl Write) {
         view.len(),
         lines.len()
     );
-    for l in lines {
+    // the view plus a few lines above it (older lines were checked when they were this close)
+    let from = if compress() { lines.len().saturating_sub(view.len() + 3) } else { 0 };
+    for l in &lines[from..] {
         s.push(' ');
         api_line(l, &mut s);
     }
@@ -133,8 +135,71 @@ fn api_record(k: usize, vt: &Vt, out: &mut impl Write) {
     }
 }
 
+thread_local! {
+    /// per instance: the line tokens of the two buffer slots in the previous ST record
+    static PREV_LINES: std::cell::RefCell<HashMap<usize, [Vec<String>; 2]>> = std::cell::RefCell::new(HashMap::new());
+}
+
+fn reset_prev_lines() {
+    PREV_LINES.with(|p| p.borrow_mut().clear());
+}
+
+/// ST record with the (often long and mostly unchanged) line lists prefix-compressed against the
+/// previous record of the same instance: `B cols rows limit trim nlines =S:N line…` means "the first
+/// N lines are the first N lines of slot S (0 = buffer, 1 = other_buffer) of the previous record".
+fn compress() -> bool {
+    std::env::var("AVT_TRACE_COMPRESS").map(|v| v == "1").unwrap_or(false)
+}
+
 fn st_record(k: usize, vt: &Vt, out: &mut impl Write) {
-    writeln!(out, "ST {} {}", k, vt.verif_state()).unwrap();
+    let full = vt.verif_state();
+    if !compress() {
+        writeln!(out, "ST {} {}", k, full).unwrap();
+        return;
+    }
+    let toks: Vec<&str> = full.split(' ').filter(|t| !t.is_empty()).collect();
+    let mut res = String::with_capacity(256);
+    let mut slots: [Vec<String>; 2] = [Vec::new(), Vec::new()];
+    let prev = PREV_LINES.with(|p| p.borrow().get(&k).cloned());
+    let mut i = 0;
+    let mut slot = 0;
+    while i < toks.len() {
+        if toks[i] == "B" && slot < 2 {
+            // B cols rows limit trim nlines
+            for t in &toks[i..i + 6] {
+                res.push_str(t);
+                res.push(' ');
+            }
+            let n: usize = toks[i + 5].parse().unwrap();
+            let lines = &toks[i + 6..i + 6 + n];
+            let mut best = (0usize, 0usize);
+            if let Some(prev) = &prev {
+                for s in 0..2 {
+                    let mut c = 0;
+                    while c < n && c < prev[s].len() && prev[s][c] == lines[c] {
+                        c += 1;
+                    }
+                    if c > best.1 {
+                        best = (s, c);
+                    }
+                }
+            }
+            let _ = write!(res, "={}:{} ", best.0, best.1);
+            for l in &lines[best.1..] {
+                res.push_str(l);
+                res.push(' ');
+            }
+            slots[slot] = lines.iter().map(|s| s.to_string()).collect();
+            slot += 1;
+            i += 6 + n;
+        } else {
+            res.push_str(toks[i]);
+            res.push(' ');
+            i += 1;
+        }
+    }
+    PREV_LINES.with(|p| p.borrow_mut().insert(k, slots));
+    writeln!(out, "ST {} {}", k, res.trim_end()).unwrap();
 }
 
 pub fn function_tok(f: &Function) -> String {
@@ -351,6 +416,7 @@ fn run_script(input: impl BufRead, out: &mut impl Write) {
         writeln!(out, "{}", line).unwrap();
         match toks[0] {
             "CASE" => {
+                reset_prev_lines();
                 vts.clear();
                 dead.clear();
                 tcs.clear();
@@ -363,6 +429,7 @@ fn run_script(input: impl BufRead, out: &mut impl Write) {
                 let limit = parse_limit(toks[4]);
                 match catch_unwind(|| new_vt(cols, rows, limit)) {
                     Ok(vt) => {
+                        PREV_LINES.with(|p| p.borrow_mut().remove(&k));
                         st_record(k, &vt, out);
                         api_record(k, &vt, out);
                         vts.insert(k, vt);
@@ -490,6 +557,7 @@ fn run_script(input: impl BufRead, out: &mut impl Write) {
                 match res {
                     Ok((d, nv)) => {
                         writeln!(out, "DUMPRES {} OK {}", k, hex_encode(&d)).unwrap();
+                        PREV_LINES.with(|p| p.borrow_mut().remove(&j));
                         st_record(j, &nv, out);
                         vts.insert(j, nv);
                         dead.insert(j, false);
